@@ -4,7 +4,9 @@ C14 — model of the mock server's pull-enumeration sessions.
 mirrors pywbem_mock/_mainprovider.py: MainProvider._open_response,
   MainProvider._pull_response, MainProvider.CloseEnumeration,
   MainProvider._validate_pull_operations_enabled
-mirrors pywbem/_cim_operations.py: _validate_MaxObjectCount_OpenPull, _validate_context
+  MainProvider._validate_open_params (FilterQueryLanguage / FilterQuery / OperationTimeout)
+mirrors pywbem/_cim_operations.py: _validate_MaxObjectCount_OpenPull, _validate_context,
+  _iparam_positive_integer (OperationTimeout) as called by the Open… methods
 
 Objects are opaque (`Nat` identities assigned by the harness); the result set
 of the traditional operation that an Open… starts from is an argument of the
@@ -38,8 +40,25 @@ structure State where
   disabled : Bool := false
   deriving Repr
 
+/-- `FilterQueryLanguage` as far as `_validate_open_params` looks at it -/
+inductive Fql where
+  | absent      -- None
+  | empty       -- ''
+  | dmtf        -- 'DMTF:FQL'
+  | other       -- any other non-empty string
+  deriving DecidableEq, Repr, Inhabited
+
+/-- the optional session parameters of the Open… operations (the mock applies no filter and stores
+    `ContinueOnError` without acting on it) -/
+structure OpenParams where
+  fql     : Fql := .absent
+  fqSet   : Bool := false           -- FilterQuery is a non-empty string
+  timeout : Option Int := none      -- OperationTimeout
+  coe     : Option Bool := none     -- ContinueOnError
+  deriving DecidableEq, Repr, Inhabited
+
 inductive Op where
-  | open (kind : Kind) (ns : Nat) (objs : List Obj) (max : Option Int)
+  | open (p : OpenParams) (kind : Kind) (ns : Nat) (objs : List Obj) (max : Option Int)
   | pull (kind : Kind) (ctx : Option Nat) (max : Option Int)
   | close (ctx : Option Nat)
   | addNs (ns : Nat)
@@ -54,10 +73,13 @@ inductive Out where
   deriving Repr, DecidableEq
 
 def CIM_ERR_INVALID_NAMESPACE : Nat := 3
+def CIM_ERR_INVALID_PARAMETER : Nat := 4
+def CIM_ERR_QUERY_LANGUAGE_NOT_SUPPORTED : Nat := 14
 def CIM_ERR_NOT_SUPPORTED : Nat := 7
 def CIM_ERR_INVALID_ENUMERATION_CONTEXT : Nat := 21
 
 def defaultMax : Nat := Pywbem.Generated.defaultMaxObjectCount
+def openMaxTimeout : Nat := Pywbem.Generated.openMaxTimeout
 
 /-- `max_obj_cnt = MaxObjectCount; if max_obj_cnt is None: max_obj_cnt = DEFAULT`
     (client-side validation has already rejected negatives) -/
@@ -77,10 +99,31 @@ def badMax (m : Option Int) : Bool :=
   | some k => k < 0
   | none => false
 
-def stepOpen (s : State) (kind : Kind) (ns : Nat) (objs : List Obj) (max : Option Int) : State × Out :=
-  if badMax max then (s, .err .valueError)
+def Fql.truthy : Fql → Bool
+  | .absent => false
+  | .empty => false
+  | _ => true
+
+/-- client side `_iparam_positive_integer(OperationTimeout)`: ValueError below zero -/
+def badTimeout (t : Option Int) : Bool :=
+  match t with
+  | some k => k < 0
+  | none => false
+
+/-- `MainProvider._validate_open_params`, branch for branch -/
+def paramErr (p : OpenParams) : Option PyExc :=
+  if !p.fql.truthy && p.fqSet then some (.cimError CIM_ERR_INVALID_PARAMETER)
+  else if p.fql.truthy && p.fql != .dmtf then some (.cimError CIM_ERR_QUERY_LANGUAGE_NOT_SUPPORTED)
+  else match p.timeout with
+    | some t => if t != 0 && (t < 0 || t > (openMaxTimeout : Int)) then some (.cimError CIM_ERR_INVALID_PARAMETER)
+                else none
+    | none => none
+
+def stepOpen (s : State) (p : OpenParams) (kind : Kind) (ns : Nat) (objs : List Obj) (max : Option Int) : State × Out :=
+  if badMax max || badTimeout p.timeout then (s, .err .valueError)
   else if s.disabled then (s, .err (.cimError CIM_ERR_NOT_SUPPORTED))
   else if !(s.nss.contains ns) then (s, .err (.cimError CIM_ERR_INVALID_NAMESPACE))
+  else if let some e := paramErr p then (s, .err e)
   else
     let m := effMax max
     if objs.length ≤ m then (s, .batch objs true none)
@@ -117,7 +160,7 @@ def stepClose (s : State) (ctx : Option Nat) : State × Out :=
 
 def step (s : State) (op : Op) : State × Out :=
   match op with
-  | .open k ns objs m => stepOpen s k ns objs m
+  | .open p k ns objs m => stepOpen s p k ns objs m
   | .pull k c m => stepPull s k c m
   | .close c => stepClose s c
   | .addNs ns => (if s.nss.contains ns then s else { s with nss := s.nss ++ [ns] }, .done)
